@@ -400,6 +400,11 @@ def stream_cases(tier):
     for d in range(1, depth + 1):
         for combo in itertools.product(alpha, repeat=d):
             seqs.append(("+".join(i["name"] for i in combo), b"".join(i["data"] for i in combo)))
+    f2 = items.frames()["F2"]
+    for e in items.hostile_extra():
+        seqs.append((e["name"], e["data"]))
+        seqs.append((e["name"] + "+F2", e["data"] + f2["data"]))
+        seqs.append(("F2+" + e["name"], f2["data"] + e["data"]))
     if tier == "thorough":
         small = [i for i in alpha if len(i["data"]) <= 40]
         for combo in itertools.product(small, repeat=3):
